@@ -6,6 +6,9 @@
 
 #include <gmlc/concurrency/Barrier.hpp>
 
+#include <chrono>
+#include <thread>
+
 enum { OP_WAIT = 0, OP_WAIT_DROP };
 static const char* const OPN[] = {"wait", "wait_and_drop"};
 
@@ -32,6 +35,10 @@ void body(int t)
             S->arrived[gen]++;
         }
         for (int y = 0; y < op.a; y++) gsim::yield();
+        // a slow participant: arrives long (in simulated time) after the others began to wait
+        if (op.b == 1) std::this_thread::sleep_for(std::chrono::milliseconds(100));
+        else if (op.b == 2) std::this_thread::sleep_for(std::chrono::seconds(3));
+        else if (op.b == 3) std::this_thread::sleep_for(std::chrono::hours(2));
         S->slot[t][gen] = 100 * gen + t;
         if (op.code == OP_WAIT_DROP) S->bar->wait_and_drop();
         else S->bar->wait();
@@ -67,7 +74,8 @@ void run()
             if (!drop) any_stayer = true;
             for (int i = 0; i < len; i++)
                 gsim::prog_add(t, {drop && i == len - 1 ? OP_WAIT_DROP : OP_WAIT,
-                                   gsim::gen_int(3) == 0 ? 1 + gsim::gen_int(2) : 0, 0, 0});
+                                   gsim::gen_int(3) == 0 ? 1 + gsim::gen_int(2) : 0,
+                                   gsim::gen_int(5) == 0 ? 1 + gsim::gen_int(3) : 0, 0});
         }
     }
     // ---- validate (the minimiser may have produced an unbalanced program)
@@ -106,6 +114,9 @@ void run()
         st.required[g] = req;
     }
     gsim::enable_fault(gsim::F_SPURIOUS_WAKE, gsim::knob("spurious", 0, 2) * 150);
+    // clock jumps at timed waits (the unchanged Barrier has none; a rewrite with timed waits must
+    // still not release early)
+    gsim::enable_fault(gsim::F_TIME_JUMP, gsim::knob("time_jump", 0, 2) * 30);
     st.nthreads = N;
     st.bar = new gmlc::concurrency::Barrier((size_t)N);
     wl::run_program(body);
